@@ -150,6 +150,10 @@ def run_stub_slice(ctx):
             violations.append({"kind": "pcrel-extract", "case": c, "group": "pcrel",
                                "what": f"extract_pc_relative_offset gives {r['pcrel']} for offset {e['off']}"})
         A = rng.choice([A0, 0x1000, 0x7FFFF000, 0xFFFFFFF0000])
+        if e.get("full") and A + min(e.get("target", 0), 0) < 0:
+            # RIMI-full stubs end in chdom, whose target must lie inside the (mapped) JIT region: an address
+            # below 0 is not an address; such a stub is executed from a base where A + offset exists
+            A = A0
         variant = 2 if e.get("full") else (4 if e["kind"] in ("fmeth", "fpic") else 0)
         runs.append("exec %d 0 0 18446744073709551615 %d %d 0 w %s r 1=1234567 5=11 6=13 28=99"
                     % (variant, A, e["n"], " ".join(map(str, r["w"]))))
